@@ -779,6 +779,9 @@ func CheckMain(prop, tier string) int {
 	reported := map[string]bool{}
 	os.MkdirAll(filepath.Join(dir, "replays"), 0755)
 	for _, key := range sigOrder {
+		if os.Getenv("OLSIM_FAST_TRIAGE") != "" && nviol >= 3 {
+			break // triage aid: three confirmed reports are enough to call a seeded change detected
+		}
 		r := bySig[key]
 		var v core.Violation
 		for _, vv := range r.Violations {
